@@ -2,10 +2,11 @@
 (* Model-checking instance of ExprLang: pools of leaves, parameters, columns. *)
 EXTENDS ExprLang
 
-\* names as code points.  Sorted (Python order): "B10" < "a_fix" < "b2"; appearance order differs.
+\* names as code points.  Sorted (Python order): "B10" < "Z_fix" < "a_fix" < "b2"; appearance order differs.
 n_b2   == <<98, 50>>
 n_B10  == <<66, 49, 48>>
 n_afix == <<97, 95, 102, 105, 120>>
+n_Zfix == <<90, 95, 102, 105, 120>>
 n_x    == <<120>>
 n_y    == <<121>>
 n_av   == <<97, 118>>
@@ -13,7 +14,8 @@ n_av   == <<97, 118>>
 MC_BetaTab == <<
     [name |-> n_b2,   free |-> TRUE,  vals |-> <<Q(1, 2), I(3)>>],
     [name |-> n_B10,  free |-> TRUE,  vals |-> <<I(2), I(-1)>>],
-    [name |-> n_afix, free |-> FALSE, vals |-> <<Q(3, 2), Q(3, 2)>>] >>
+    [name |-> n_afix, free |-> FALSE, vals |-> <<Q(3, 2), Q(3, 2)>>],
+    [name |-> n_Zfix, free |-> FALSE, vals |-> <<I(-2), I(-2)>>] >>
 MC_VarTab == <<
     [name |-> n_x,  vals |-> <<I(2), Q(1, 2), I(-1)>>],
     [name |-> n_y,  vals |-> <<I(1), I(3), I(3)>>],
@@ -23,9 +25,9 @@ LNum(q)  == Node("Numeric", << >>, q, 0, << >>)
 LBeta(b) == Node("Beta", << >>, Zero, b, << >>)
 LVar(x)  == Node("Variable", << >>, Zero, x, << >>)
 
-MC_LeavesFull  == <<LNum(I(2)), LNum(Q(1, 2)), LBeta(1), LBeta(2), LBeta(3), LVar(1), LVar(2), LVar(3)>>
+MC_LeavesFull  == <<LNum(I(2)), LNum(Q(1, 2)), LBeta(1), LBeta(2), LBeta(3), LBeta(4), LVar(1), LVar(2), LVar(3)>>
 MC_LeavesSmall == <<LNum(I(2)), LBeta(1), LBeta(2), LVar(1), LVar(2)>>
-MC_LeavesMid   == <<LNum(I(2)), LBeta(1), LBeta(2), LBeta(3), LVar(1), LVar(2), LVar(3)>>
+MC_LeavesMid   == <<LNum(I(2)), LBeta(1), LBeta(2), LBeta(3), LBeta(4), LVar(1), LVar(2), LVar(3)>>
 
 MC_UnOps  == {"UnaryMinus", "exp", "log", "logzero", "sin", "cos", "bioNormalCdf", "PowerConstant"}
 MC_BinOps == {"Plus", "Minus", "Times", "Divide", "Power", "bioMin", "bioMax", "And", "Or"} \cup Comparisons
